@@ -11,6 +11,12 @@ CHECKS = {
  "C03": dict(cat="exploration", tech="bounded-exhaustive enumeration of documents x xref formats x plain/incremental save chains; every produced file is read by an independent strict reader with byte-coverage accounting",
    text="Each file written by Document::save_to / IncrementalDocument::save_to over the enumerated document space must be accepted by a strict ISO 32000 reader that follows only header, startxref, cross-reference sections, offsets and lengths, accounts for every byte, and recovers the saved objects.",
    note="trusts the strict reader in harness/src/strict.rs (written from ISO 32000-1 7.2-7.5, no lopdf parser code); documents in the C01 domain"),
+ "C02": dict(cat="exploration", tech="deviation-bounded exhaustive exploration of an independent reference PDF writer's choice points (choice recorder): 0 deviations, every single deviation at every choice point, pairs at class level; strict-reader self-check then lopdf load vs abstract document",
+   text="Every syntactic freedom of the reference writer is a recorded choice point; all executions with <=1 deviation (instance level) and <=2 deviations (class level; quick runs a seed-rotated quarter of the pairs) over 32 abstract documents are generated, validated by the strict reader and loaded by lopdf, which must return exactly the abstract document.",
+   note="trusts the reference writer (harness/src/refpdf.rs) and strict reader as readings of ISO 32000-1 7.2-7.5; hybrid-reference files and freed objects excluded as in the property"),
+ "C18": dict(cat="exploration", tech="exhaustive enumeration of all 2,879 minute-precision UTC offsets x instant menu x backends x ordered backend pairs against an integer-arithmetic reference formatter; one child process per offset for chrono Local (TZ)",
+   text="All offsets -23:59..+23:59 x 12 instants x 5 writer types x 3 reader types: the produced string must equal the reference formatting, all backends agree, parsing returns the same instant (and offset where kept); the specification's short forms must parse.",
+   note="trusts harness/src/refdate.rs (self-checked against published epoch anchors and a day-by-day walk); instants are a menu, offsets exhaustive"),
  "C19": dict(cat="fault_enumeration", tech="exhaustive fault enumeration: every byte offset of the output as failure point x failure kinds, every write-call index as Interrupted, chunkings, on the real save path with a scripted io::Write",
    text="For each document configuration every failure position (all byte offsets) x {persistent error, Ok(0), transient error} and every single-Interrupted placement and chunking is executed on the real save_to; Err must be returned, delivered bytes must be a prefix of the healthy output, bytes must not depend on chunking, a later save must be valid (strict reader + loader).",
    note="the scripted sink models prefix-then-fail, fail-once and short-write behaviours; documents are a small menu (bounded), not all documents"),
